@@ -223,20 +223,21 @@ let handle_desc (rest : sexp list) : (string * string) list =
         match List.assoc_opt id real with
         | None -> add "mismatch" (Printf.sprintf "corr:C10/descpath no DeferDescriptor for defer id %d of the normalised document" id)
         | Some (rparent, rlabel, rpath) ->
-          let mpath = defer_path sch root chain in
+          let all = chain :: more in
+          let mpath = collector_path sch root all in
           if mpath <> rpath then
             add "mismatch" (Printf.sprintf "corr:C10/descpath id %d: model path %s, DeferDescriptor path %s" id (show_path mpath) (show_path rpath));
           if rparent <> parent || rlabel <> label then
             add "mismatch" (Printf.sprintf "corr:C10/descmeta id %d: parent/label (%d,%s) in the document, (%d,%s) in the descriptor" id parent label rparent rlabel);
-          if not (desc_path_ok_b sch root chain rpath) then
+          if not (desc_paths_ok_b sch root all rpath) then
             add "specfail" (Printf.sprintf "descriptor_path id %d: DeferDescriptor path %s is not the response keys up to the outermost list field %s [quirk=%s]"
-                              id (show_path rpath) (show_path (spec_path sch root chain))
-                              (if static_gives_up sch root chain && mpath = rpath then "typed-list" else "none"));
-          if not (anchor_ok_b rpath (chain :: more)) then begin
-            let bad = List.find (fun c -> not (prefix_b rpath (candidate c))) (chain :: more) in
-            add "specfail" (Printf.sprintf "descriptor_anchor id %d: DeferDescriptor path %s is not a prefix of the response position %s of a selection set holding fields of this defer (the subPath of its items does not compose with the pending path) [quirk=%s]"
+                              id (show_path rpath) (show_path (spec_collector_path sch root all))
+                              (if List.exists (static_gives_up sch root) all && mpath = rpath then "typed-list" else "none"));
+          if not (anchor_ok_b rpath all) then begin
+            let bad = List.find (fun c -> not (prefix_b rpath (candidate c))) all in
+            add "specfail" (Printf.sprintf "descriptor_anchor id %d: DeferDescriptor path %s is not a prefix of the response position %s of a selection set holding fields of this defer (the subPath of its items does not compose with the pending path) [v0=%s]"
                               id (show_path rpath) (show_path (candidate bad))
-                              (if collector_path sch root (chain :: more) = rpath then "first-occurrence" else "none"))
+                              (if collector_path_v0 sch root all = rpath then "first-occurrence" else "none"))
           end) chains;
       (* a nested defer is mounted at or below its parent: the parent's path must be a prefix of the child's
          (otherwise a dead parent anchor cancels a child that is mounted above it) *)
@@ -244,9 +245,9 @@ let handle_desc (rest : sexp list) : (string * string) list =
         match List.assoc_opt id real, List.assoc_opt parent real, List.assoc_opt parent chains with
         | Some (_, _, rpath), Some (_, _, ppath), Some (_, _, pchain, pmore) when parent <> 0 && parent <> id ->
           if not (prefix_b ppath rpath) then
-            add "specfail" (Printf.sprintf "descriptor_anchor id %d: the DeferDescriptor path %s of its parent %d is not a prefix of its own path %s (a dead parent anchor cancels this defer although it is mounted above it) [quirk=%s]"
+            add "specfail" (Printf.sprintf "descriptor_parent id %d: the DeferDescriptor path %s of its parent %d is not a prefix of its own path %s (a dead parent anchor cancels this defer although it is mounted above it) [quirk=%s]"
                               id (show_path ppath) parent (show_path rpath)
-                              (if collector_path sch root (chain :: more) = rpath && collector_path sch root (pchain :: pmore) = ppath then "first-occurrence" else "none"))
+                              (if collector_path sch root (chain :: more) = rpath && collector_path sch root (pchain :: pmore) = ppath then "below-mount" else "none"))
         | _ -> ()) chains;
       List.iter (fun (id, _) ->
         if not (List.mem_assoc id chains) then
